@@ -584,6 +584,17 @@ def run_installed_family(pool, tier, names, seed, fname="run_installed"):
 UNCONFIRMED = []
 
 
+def retry_inproc(fn, item, seed, init, secs=300):
+    """an item that hung its worker is re-tried once in this process under a watchdog before it counts as a hang"""
+    init(seed=seed)
+    env.install_watchdog()
+    try:
+        with env.watchdog(secs):
+            return fn(item)
+    except env.StepTimeout:
+        return parallel.HANG
+
+
 def _merge(total, r):
     UNCONFIRMED.extend(r.get("unconfirmed", []))
     for k in ("evals", "valid", "rejected", "nan_skipped", "distinct", "nviol"):
@@ -643,6 +654,8 @@ def run(tier, seed):
         gen_total = dict(total, rej_kinds={})
         for it, r in zip(items, res):
             if r == parallel.HANG:
+                r = retry_inproc(run_gen, it, seed, worker_init)
+            if r == parallel.HANG:
                 hangs += 1
                 viols.append({"sig": {"part": "hang", "form": "-", "cause": "other", "type": it["type"]}, "input": dict(it, kind="gen", value=None, seed=seed), "what": "case hung the worker"})
                 continue
@@ -663,6 +676,8 @@ def run(tier, seed):
             res = pool.map("run_gen", two, chunk=2, item_deadline=300)
             for it, r in zip(two, res):
                 if r == parallel.HANG:
+                    r = retry_inproc(run_gen, it, seed, worker_init)
+                if r == parallel.HANG:
                     hangs += 1
                     continue
                 if r["class_error"]:
@@ -677,6 +692,8 @@ def run(tier, seed):
         inst_samples = []
         subsumed = 0
         for it, r in zip(inst_items, res):
+            if r == parallel.HANG:
+                r = retry_inproc(run_installed, it, seed, worker_init, secs=900)
             if r == parallel.HANG:
                 hangs += 1
                 viols.append({"sig": {"part": "hang", "form": "-", "cause": "other", "schema": it[0]}, "input": {"kind": "installed", "schema": it[0], "item": list(it), "seed": seed}, "what": "case hung the worker"})
